@@ -368,7 +368,7 @@ impl TrendHistory {
 
         // 1. Remove entries older than max_age_days
         if let Some(max_age_days) = config.max_age_days {
-            let cutoff = current_time.saturating_sub(max_age_days * SECONDS_PER_DAY);
+            let cutoff = current_time.saturating_sub(max_age_days.saturating_mul(SECONDS_PER_DAY));
             self.entries.retain(|e| e.timestamp >= cutoff);
         }
 
